@@ -47,6 +47,18 @@ impl Alg {
             Alg::Ed25519 => &[0x30, 0x05, 0x06, 0x03, 0x2b, 0x65, 0x70],
         }
     }
+    /// Arcs of the signature algorithm OID (hand-written, as in RFC 4055 / 5758 / 8410).
+    pub fn sig_oid_arcs(self) -> &'static [u64] {
+        match self {
+            Alg::RsaSha256 => &[1, 2, 840, 113549, 1, 1, 11],
+            Alg::RsaSha384 => &[1, 2, 840, 113549, 1, 1, 12],
+            Alg::RsaSha512 => &[1, 2, 840, 113549, 1, 1, 13],
+            Alg::P256 => &[1, 2, 840, 10045, 4, 3, 2],
+            Alg::P384 => &[1, 2, 840, 10045, 4, 3, 3],
+            Alg::P521 => &[1, 2, 840, 10045, 4, 3, 4],
+            Alg::Ed25519 => &[1, 3, 101, 112],
+        }
+    }
     pub fn is_rsa(self) -> bool {
         matches!(self, Alg::RsaSha256 | Alg::RsaSha384 | Alg::RsaSha512)
     }
